@@ -156,4 +156,167 @@ def oracle_C01(K, rec, counters):
     return []
 
 
-ORACLES = {"C01": oracle_C01, "C02": oracle_C02, "C03": oracle_C03}
+def hook_machine(K, events, strict, has_trace):
+    """Python mirror of Hooks.run (coq/Hooks.v), applied to the IMPLEMENTATION's log.
+    Returns (ok, why, own_action_throw); frames: ["I", r, started, closed] / ["H", k, r, action_fired].
+    Without the invocation trace (control families 0/1) attempts abandoned by an exception are
+    recognised when an outer attempt is closed: legal in the general protocol, a violation in the
+    strict one (unless the abandoned attempt's own action had just fired: the recorded finding)."""
+    table = K.table
+    st = []
+
+    def consistent(started, closed, o):
+        if not started and closed is None:
+            return True
+        if started and closed == "O" and o == 1:
+            return True
+        if started and closed == "F" and o == 0:
+            return True
+        if started and closed == "U" and o == 2:
+            return True
+        if started and closed in ("F", None, "O") and o == 2:
+            return not strict
+        return False
+
+    def abandoned(frames):
+        """H frames (topmost first) left without closing hook: (ok, why, own). Legal in the general
+        protocol; in the strict one only for control families without unwind() (odd ids)."""
+        bad = [f for f in frames if f[0] == "H" and f[1] % 2 == 0]
+        if not strict or not bad:
+            return True, "", False
+        own = all(f[3] for f in bad)
+        return False, "attempt of rule %d left without success/failure/unwind" % bad[0][2], own
+
+    def drop_implicit(match):
+        """pop frames of trace-less control families (entered implicitly at their start hook) that an
+        exception abandoned, down to the first frame for which match(frame) holds"""
+        i = len(st) - 1
+        while i >= 0 and not match(st[i]):
+            f = st[i]
+            if not ((f[0] == "H" and f[1] < 2) or (f[0] == "I" and len(f) > 4)):
+                return True, "", False          # a traced frame is in the way: let the caller report it
+            i -= 1
+        if i < 0:
+            return True, "", False
+        if i != len(st) - 1:
+            ok, why, own = abandoned([f for f in reversed(st[i + 1:]) if f[0] == "H"])
+            if not ok:
+                return False, why, own
+            del st[i + 1:]
+        return True, "", False
+
+    for k, n in events:
+        if k == "B":
+            st.append(["I", n[1], False, None])
+        elif k == "S":
+            if not has_trace or n[0] < 2:
+                st.append(["I", n[1], False, None, "implicit"])
+            if not st or st[-1][0] != "I" or st[-1][1] != n[1] or st[-1][2] or st[-1][3] is not None:
+                return False, "start for rule %d out of place (twice, or not the innermost attempt)" % n[1], False
+            st[-1][2] = True
+            st.append(["H", n[0], n[1], False])
+        elif k in ("O", "F", "U"):
+            if not has_trace or n[0] < 2:
+                # attempts above the matching one were abandoned by an exception
+                idx = None
+                for i in range(len(st) - 1, -1, -1):
+                    if st[i][0] == "H" and st[i][1] == n[0] and st[i][2] == n[1]:
+                        idx = i
+                        break
+                if idx is None:
+                    return False, "closing hook %s for rule %d without matching open start" % (k, n[1]), False
+                if idx != len(st) - 1:
+                    ok, why, own = abandoned([f for f in reversed(st[idx + 1:]) if f[0] == "H"])
+                    if not ok:
+                        return False, why, own
+                    del st[idx + 1:]
+            elif has_trace:
+                ok, why, own = drop_implicit(lambda f: f[0] == "H" and f[1] == n[0] and f[2] == n[1])
+                if not ok:
+                    return False, why, own
+            if len(st) < 2 or st[-1][0] != "H" or st[-1][1] != n[0] or st[-1][2] != n[1] or st[-2][1] != n[1] or st[-2][3] is not None:
+                return False, "closing hook %s for rule %d without matching open start" % (k, n[1]), False
+            st.pop()
+            st[-1][3] = k
+            if not has_trace or n[0] < 2:
+                st.pop()
+        elif k == "E":
+            ok, why, own = drop_implicit(lambda f: len(f) == 4 and ((f[0] == "I" and f[1] == n[1]) or (f[0] == "H" and f[1] >= 2 and f[2] == n[1])))
+            if not ok:
+                return False, why, own
+            if not st:
+                return False, "invocation exit without enter", False
+            if st[-1][0] == "I":
+                f = st.pop()
+                if f[1] != n[1] or not consistent(f[2], f[3], n[2]):
+                    return False, "closing hook %s of rule %d contradicts the result %d of the attempt" % (f[3], n[1], n[2]), False
+            else:
+                if len(st) < 2 or st[-1][2] != n[1] or st[-2][1] != n[1]:
+                    return False, "invocation exit for rule %d with another attempt open" % n[1], False
+                if not consistent(True, None, n[2]):
+                    own = (n[2] == 2 and st[-1][3])
+                    return False, "attempt of rule %d left without success/failure/unwind (result %d)" % (n[1], n[2]), own
+                st.pop()
+                st.pop()
+        elif k in ("A", "Z"):
+            if not st or st[-1][0] != "H" or st[-1][2] != n[1]:
+                return False, "action for rule %d outside the window between its body and its closing hook" % n[1], False
+            st[-1][3] = True
+        elif k == "R":
+            if not has_trace or n[0] < 2:
+                continue      # the origin of a raise can only be judged with the invocation trace (internal must<> nodes have no hooks)
+            if not st:
+                return False, "raise outside any attempt", False
+            r = st[-1][1] if st[-1][0] == "I" else st[-1][2]
+            nd = table.get(r)
+            ok = False
+            if n[1] < 0:
+                ok = True
+            elif nd and nd["head"][0] in ("must", "raise") and nd["subs"] and nd["subs"][-1] == n[1]:
+                ok = True
+            if not ok:
+                return False, "raise for rule %d while rule %d (%s) is the innermost attempt" % (n[1], r, nd["head"][0] if nd else "?"), False
+    if st:
+        if has_trace:
+            return False, "%d attempts still open at the end of the run" % len(st), False
+        ok, why, own = abandoned([f for f in reversed(st) if f[0] == "H"])
+        if not ok:
+            return False, why, own
+    return True, "", False
+
+
+def oracle_C08(K, rec, counters):
+    cfg = rec["cfg"].split(".")
+    fam, ctl = int(cfg[0]), int(cfg[1])
+    evs = er.events_of(rec)
+    has_trace = ctl >= 2
+    out = []
+    # general protocol (all configurations)
+    ok, why, _ = hook_machine(K, evs, False, has_trace)
+    counters["logs_checked"] += 1
+    if not ok:
+        return ["protocol: " + why]
+    if ctl % 2 == 0:
+        # strict: control has unwind(); throwing families are the recorded finding's territory
+        ok, why, own = hook_machine(K, evs, True, has_trace)
+        counters["strict_logs_checked"] += 1
+        if not ok:
+            if own and fam in (5, 6):
+                out.append("KNOWN:own-action-throws")
+            else:
+                out.append("strict protocol: " + why)
+        else:
+            # coverage counters
+            cnt = {}
+            for k, n in evs:
+                if k in "SOFU" and n[0] % 2 == 0:
+                    key = (n[0], n[1])
+                    c = cnt.setdefault(key, [0, 0])
+                    c[0 if k == "S" else 1] += 1
+            for key, (a, b) in cnt.items():
+                if a != b:
+                    out.append("coverage counters: rule %d start=%d but success+failure+unwind=%d" % (key[1], a, b))
+    return out
+
+
+ORACLES = {"C01": oracle_C01, "C02": oracle_C02, "C03": oracle_C03, "C08": oracle_C08}
